@@ -43,6 +43,24 @@ impl<'a, T: Read + Seek> QueueReader<'a, T> {
         })
     }
 
+    /// Returns the maximum number of points that can be stored in the file.
+    ///
+    /// The number of records is taken from the XML section and cannot be trusted.
+    /// But every point with at least one bit needs some room in the file.
+    pub fn max_points(&self) -> u64 {
+        let point_bits: usize = self
+            .pc
+            .prototype
+            .iter()
+            .map(|r| r.data_type.bit_size())
+            .sum();
+        if point_bits == 0 {
+            u64::MAX
+        } else {
+            self.reader.logical_size().saturating_mul(8) / point_bits as u64
+        }
+    }
+
     /// Returns the number of complete and available points across all queues.
     pub fn available(&self) -> usize {
         if self.queues.is_empty() {
